@@ -9,7 +9,7 @@ Fixpoint dec_str (fuel : nat) (s : list N) (acc : list N) : option (list N * lis
   | O => None
   | S f =>
       match s with
-      | 34 :: r => Some (rev acc, r)
+      | 34 :: r => Some (rev_append acc [], r)
       | 92 :: a :: b :: c :: d :: e :: g :: r =>
           match hexval a, hexval b, hexval c, hexval d, hexval e, hexval g with
           | Some a, Some b, Some c, Some d, Some e, Some g =>
